@@ -107,6 +107,12 @@ func (d *Data) Verify(untrustedData *Data) error {
 	if untrustedData == nil {
 		return errors.New("untrusted block cannot be nil")
 	}
+	// The link can only be checked against the direct predecessor. go-header
+	// also offers non-adjacent data, e.g. the first data a sequencer publishes
+	// after it was stopped between committing a block and publishing it.
+	if d.Height()+1 != untrustedData.Height() {
+		return nil
+	}
 	dataHash := d.Hash()
 	// Check if the data hash of the untrusted block matches the last data hash of the trusted block
 	if !bytes.Equal(dataHash[:], untrustedData.LastDataHash[:]) {
